@@ -510,6 +510,38 @@ fn main() {
                 r.run_case(&c);
             }
         }
+        "dense" => {
+            // short haystacks over a tiny alphabet of mixed character classes, needles embedded with small gaps: runs of
+            // consecutive matches that start / continue / restart on class transitions, ties between continuing a run and
+            // entering it from a gap (where only the carried consecutive bonus differs)
+            let count: usize = args[2].parse().unwrap();
+            let shard: u64 = args.get(3).map(|s| s.parse().unwrap()).unwrap_or(0);
+            r.rng = Rng::new(seed.wrapping_mul(7368787).wrapping_add(shard) ^ 0x6465);
+            let alpha: &[char] = &['a', 'b', 'x', 'A', 'B', '1', '2', ' ', '-', 'a', 'b', 'x'];
+            for _ in 0..count {
+                let cfg = r.rng.below(4) as u32 | ((r.rng.below(3) as u32) << 3);
+                let config = config_of(cfg);
+                let len = 6 + r.rng.below(11) as usize;
+                let mut hay: Vec<char> = (0..len).map(|_| *r.rng.pick(alpha)).collect();
+                if r.rng.chance(1, 6) {
+                    let i = r.rng.below(len as u64) as usize;
+                    hay[i] = 'é';
+                }
+                let hay_is_ascii = hay.iter().all(|c| c.is_ascii());
+                let hr_ascii = hay_is_ascii && r.rng.chance(3, 4);
+                let normed: Vec<char> = hay.iter().map(|&c| norm_any(c, hr_ascii, &config)).collect();
+                let k = 2 + r.rng.below(4) as usize;
+                let mut i = r.rng.below((len / 2) as u64) as usize;
+                let mut needle = Vec::new();
+                while needle.len() < k && i < len {
+                    needle.push(normed[i]);
+                    i += 1 + [0usize, 0, 0, 1, 1, 2][r.rng.below(6) as usize];
+                }
+                let needle_is_ascii = needle.iter().all(|c| c.is_ascii());
+                let nr_ascii = needle_is_ascii && (hr_ascii || r.rng.chance(1, 2));
+                r.run_case(&Case { cfg, hr_ascii, nr_ascii, hay, needle });
+            }
+        }
         "exh" => {
             let maxh: usize = args[2].parse().unwrap();
             let maxn: usize = args[3].parse().unwrap();
